@@ -33,7 +33,7 @@ def run_vx(args, logfile):
     return r.stdout
 
 
-def assemble(unit_name, unit):
+def assemble(unit_name, unit, tolerant=False):
     """returns (path of generated file, rule log path)"""
     ensure_vx()
     os.makedirs(BUILD, exist_ok=True)
@@ -72,6 +72,8 @@ def assemble(unit_name, unit):
                 args.append("--noextendmap")
             if piece.get("notryinto"):
                 args.append("--notryinto")
+            if tolerant:
+                args.append("--tolerant")
             args += ["--renames", piece.get("renames", DEFAULT_RENAMES)]
             if contracts:
                 args += ["--contracts", ",".join(contracts)]
